@@ -1550,6 +1550,12 @@ func (in *interp) binop(op token.Token, l, r AV, at ast.Node) AV {
 				return avBool{(ls.s == rs.s) == (op == token.EQL)}
 			}
 		}
+	case token.ADD:
+		if ls, ok := l.(avStr); ok {
+			if rs, ok := r.(avStr); ok {
+				return avStr{ls.s + rs.s}
+			}
+		}
 	}
 	// integer sets
 	lv, lok := intVals(l)
